@@ -39,6 +39,11 @@ def cfgs_for(d, p, tier):
     for iv in INITS:
         out.append({'entry': 'coneqp', 'storage': 'dense', 'kkt': None, 'init': iv})
     out.append({'entry': 'coneqp', 'storage': 'sparse', 'kkt': 'ldl', 'init': ['s', 'z'], 'opts': LOOSE})
+    if d['l'] + sum(d['q']) + sum(d['s']) > 0:
+        for bad in (('s', 'neg'), ('z', 'neg'), ('s', 'zero'), ('z', 'zero')):
+            out.append({'entry': 'coneqp', 'storage': 'dense', 'kkt': None, 'init': ['x', 's', 'y', 'z'], 'badstart': bad})
+        out.append({'entry': 'coneqp', 'storage': 'sparse', 'kkt': 'ldl', 'init': ['z'], 'badstart': ('z', 'neg')})
+        out.append({'entry': 'qp' if only_l else 'coneqp', 'storage': 'dense', 'kkt': None, 'init': ['s'], 'badstart': ('s', 'neg')})
     out.append({'entry': 'coneqp', 'storage': 'dense', 'kkt': None, 'junk': 77.0})
     out.append({'entry': 'coneqp', 'storage': 'sparse', 'kkt': 'ldl2', 'junk': -9.0, 'opts': LOOSE})
     out.append({'entry': 'coneqp', 'storage': 'dense', 'kkt': None, 'opts': {'maxiters': 2}})
@@ -126,7 +131,9 @@ def run(case):
 
 def _judge(O, inst, cfg, res, exact):
     nv = len(O.viol)
-    if isinstance(res, Exception):
+    if cfg.get('badstart') and solve.bad_start_outcome(O, res, cfg['badstart'][0]):
+        lab = 'invalid-start:' + type(res).__name__
+    elif isinstance(res, Exception):
         lab = 'exc:' + type(res).__name__
     else:
         lab = str(res.get('status'))
